@@ -174,3 +174,14 @@ PROPS["C14"] = {
     "outside": "commands with symbolic arguments (the argument values do not change who sends what); membership changes",
     "assumptions": ["environment shims", "the link pump mirrors handle_client / start_replication"],
 }
+
+PROPS["C13"] = {
+    "level": "model_checking",
+    "harnesses": [
+        {"name": "c13_events", "params": {"quick": {"events": 5}, "thorough": {"events": 6}}, "covers": ["conflict.queued", "resolve.done"], "budget_s": {"quick": 900, "thorough": 7200}},
+    ],
+    "bounds": {"quick": "single node, arbiter-strategy database, one key with history (version 1); all sequences of 5 events from {an arbiter registers, the arbiter disconnects, plain set, set-safe with any base version in [0,3], the arbiter resolves the oldest pending conflict echoing the op id and version of its notice}; after every event: refused-or-queued writes leave the value untouched, a queued conflict is recorded under $conflicts_<key>_<opid> and delivered (or re-delivered to the next arbiter, exactly the unresolved ones, in order), nothing is applied over a pending conflict; at the end the key holds the last resolution and is writable again",
+               "thorough": "6 events"},
+    "outside": "two keys; clusters (the resolve path of a cluster is covered by C14 / C04: it does not quiesce, recorded there); resolutions that pick the old value",
+    "assumptions": ["environment shims", "op ids come from the logical clock (distinct)"],
+}
